@@ -358,7 +358,9 @@ class Report:
               "notes": self.notes}
         os.makedirs(V + "/evidence", exist_ok=True)
         if not getattr(self, "replay", False):      # a replay run is not a coverage run: keep the last evidence file
-            json.dump(ev, open(f"{V}/evidence/{self.prop}.json", "w"), indent=1)
+            # a run against a scratch tree (VERIF_REPO) is an experiment of ours: it does not replace the record of the last run on /repo
+            sub = "" if os.path.realpath(REPO) == "/repo" else "scratch-"
+            json.dump(ev, open(f"{V}/evidence/{sub}{self.prop}.json", "w"), indent=1)
         for fid, desc in sorted(self.known_hits.items()):
             print(f"KNOWN-FINDING: property={self.prop} {fid}: {desc}")
         for v in self.violations:
